@@ -214,7 +214,9 @@ def oracle(spec):
         skip = ["t_outlet_k"] if not thermal else []
     if w in ("split_series", "one_section"):
         skip = ["lambda", "reynolds", "v_from_m_per_s", "v_to_m_per_s", "v_mean_m_per_s", "normfactor_from", "normfactor_to",
-                "dp_friction_loss_bar", "t_to_k", "t_outlet_k", "p_to_bar"] if w == "split_series" else ["dp_friction_loss_bar"]
+                "dp_friction_loss_bar", "t_to_k", "t_outlet_k", "p_to_bar", "vdot_m3_per_s"] if w == "split_series" else ["dp_friction_loss_bar"]
+        # (the pipe-level means - velocities, volume flow, Re, lambda - are those of the whole pipe on one side and of its first
+        #  piece on the other: they coincide only for uniform properties, so the comparison is on pressures and mass flows)
     for t in info["skip_tables"]:
         if t in na:
             na[t] = na[t].iloc[0:0]
